@@ -275,7 +275,15 @@ class Run:
             if not p.build_ok.get(m, False):
                 log = p.build_log.get(m, "")
                 errs = [l for l in log.splitlines() if "error" in l][:6]
-                self.findings.append(Finding("broken-proof", f"lake build {m} failed: " + " | ".join(errs)[:900]))
+                what = f"lake build {m} failed: " + " | ".join(errs)[:900]
+                if m.startswith("Properties.Prov."):
+                    try:
+                        import provenance
+
+                        what = f"{m}: " + provenance.diff_against_snapshot(m.rsplit(".", 1)[1]) + " — the hand-written model was written against the earlier statements and is no longer known to describe this code"
+                    except Exception as e:  # noqa: BLE001
+                        what += f" (no diff: {e})"
+                self.findings.append(Finding("broken-proof", what))
         if not p.driver_ok:
             self.findings.append(Finding("broken-proof", "model driver does not build: " + p.build_log.get("driver", "")[-600:]))
         for h in p.audit_hits:
